@@ -82,6 +82,21 @@ func typedOpProgs() []*Prog {
 			add(fmt.Sprintf("nested/%s/%d", ci, si), []Param{{"a", "int"}, {"b", "int"}, {"c", "bool"}}, "int", body, decl)
 		}
 	}
+	// expressions spread over several lines whose fused form can fail at run time: the failure line is the same in both modes
+	mdecl := "type P struct {\n\tx int\n}\n\nfunc twice(v int) int {\n\treturn v + v\n}\n\n"
+	for i, body := range []string{
+		"\tr := a /\n\t\tb\n\treturn r\n",
+		"\tr := a %\n\t\tb +\n\t\t1\n\treturn r\n",
+		"\txs := []int{1, 2}\n\ts := xs[\n\t\tb]\n\treturn s + a\n",
+		"\txs := []int{1, 2}\n\txs[\n\t\tb] = a\n\treturn xs[0]\n",
+		"\tvar p *P\n\tif c {\n\t\tp = &P{x: a}\n\t}\n\tt := p.\n\t\tx\n\treturn t + b\n",
+		"\tvar p *P\n\tif c {\n\t\tp = &P{x: a}\n\t}\n\tp.\n\t\tx = b\n\treturn p.x\n",
+		"\tvar m map[string]int\n\tif c {\n\t\tm = map[string]int{}\n\t}\n\tm[\"k\"] =\n\t\ta / b\n\treturn m[\"k\"]\n",
+		"\tx := a\n\tx +=\n\t\ttwice(\n\t\t\ta / b)\n\treturn x\n",
+		"\txs := []int{1, 2, 3}\n\treturn xs[1+\n\t\t1] / (a -\n\t\tb)\n",
+	} {
+		add(fmt.Sprintf("multiline-fault/%d", i), []Param{{"a", "int"}, {"b", "int"}, {"c", "bool"}}, "int", body, mdecl)
+	}
 	return progs
 }
 
